@@ -82,19 +82,28 @@ def _unquiesced_related(case, is_trigger):
     (no 'Q' item between them) - i.e. the schedule is not 'eager' around the trigger.  Returns the set of
     trigger paths, or None."""
     plan = case.get("plan", [])
+    roots = tuple(case.get("cfg", {}).get("roots", ("/local", "/remote")))
+
+    def rel_paths(u):
+        # 'A' items (C12) address the account: only their paths inside the side's root count, made root-relative
+        if u[0] == "U":
+            return _op_paths(u)
+        r = roots[u[1]]
+        return [q[len(r):] for q in _op_paths(u) if q.startswith(r + "/")]
     users = [(i, it) for i, it in enumerate(plan) if it and it[0] == "U"]
+    others = [(i, it) for i, it in enumerate(plan) if it and it[0] in ("U", "A")]
     out = set()
     for i, t in users:
         if not is_trigger(t):
             continue
         tp = _op_paths(t)
-        for j, u in users:
+        for j, u in others:
             if j == i:
                 continue
             lo, hi = min(i, j), max(i, j)
             if any(it and it[0] == "Q" for it in plan[lo + 1:hi]):
                 continue
-            if any(_related(p, q) for p in tp for q in _op_paths(u)):
+            if any(_related(p, q) for p in tp for q in rel_paths(u)):
                 out.update(tp)
     return out or None
 
